@@ -1,5 +1,5 @@
 SPECIFICATION Spec
-CONSTANTS MaxN = 4 MaxIter = 3 StrictA = FALSE
+CONSTANTS MaxN = 4 MaxIter = 3 StrictA = FALSE GenMod = 1
   AsIs_UnconditionalUnshuffle = TRUE Mut_NoReshuffle = FALSE Mut_FeedUnlabeled = FALSE Mut_InverseMixup = FALSE
 CONSTANT Thresholds <- ThrMid
 CONSTANT ShuffleVals <- OnlyTrue
